@@ -52,6 +52,17 @@ def apply_edit(tmp, v):
                     rename_locals(tree, v.get("suffix", "_r"))
                     open(p, "w").write(ast.unparse(tree) + "\n")
         return None
+    if v.get("transform") in TREE_TRANSFORMS:
+        fn = TREE_TRANSFORMS[v["transform"]]
+        for dp, _, fs in os.walk(os.path.join(tmp, "inferno")):
+            for f in fs:
+                if f.endswith(".py"):
+                    p = os.path.join(dp, f)
+                    tree = ast.parse(open(p).read())
+                    tree = fn(tree)
+                    ast.fix_missing_locations(tree)
+                    open(p, "w").write(ast.unparse(tree) + "\n")
+        return None
     if v.get("patch"):
         # a seeded change kept under /verif/seeded (unified diff against the repository root)
         r = subprocess.run(["patch", "-p1", "-s", "--no-backup-if-mismatch", "-i", v["patch"]], cwd=tmp, capture_output=True, text=True)
@@ -72,6 +83,78 @@ def apply_edit(tmp, v):
             return f"edit breaks syntax: {e}"
         open(p, "w").write(s)
     return None
+
+
+_FLIP = {ast.Lt: ast.Gt, ast.Gt: ast.Lt, ast.LtE: ast.GtE, ast.GtE: ast.LtE, ast.Eq: ast.Eq, ast.NotEq: ast.NotEq}
+
+
+def flip_compares(tree):
+    """`a < b` -> `b > a` for every two-operand ordering / equality comparison (behaviour preserving for pure operands)."""
+    for n in ast.walk(tree):
+        if isinstance(n, ast.Compare) and len(n.ops) == 1 and type(n.ops[0]) in _FLIP:
+            n.left, n.comparators[0] = n.comparators[0], n.left
+            n.ops[0] = _FLIP[type(n.ops[0])]()
+    return tree
+
+
+def _neg(test):
+    if isinstance(test, ast.UnaryOp) and isinstance(test.op, ast.Not):
+        return test.operand
+    return ast.UnaryOp(op=ast.Not(), operand=test)
+
+
+def swap_if_arms(tree):
+    """`if c: A else: B` -> `if not c: B else: A` for every if statement that has an else arm."""
+    for n in ast.walk(tree):
+        if isinstance(n, ast.If) and n.orelse:
+            n.test = _neg(n.test)
+            n.body, n.orelse = n.orelse, n.body
+    return tree
+
+
+def swap_ifexp(tree):
+    """`a if c else b` -> `b if not c else a`."""
+    for n in ast.walk(tree):
+        if isinstance(n, ast.IfExp):
+            n.test = _neg(n.test)
+            n.body, n.orelse = n.orelse, n.body
+    return tree
+
+
+def commute_mult(tree):
+    """`a * b` -> `b * a` (commutative for every Python / torch operand type pair used with `*`)."""
+    for n in ast.walk(tree):
+        if isinstance(n, ast.BinOp) and isinstance(n.op, ast.Mult):
+            n.left, n.right = n.right, n.left
+    return tree
+
+
+def reverse_keywords(tree):
+    """`f(a, k1=x, k2=y)` -> `f(a, k2=y, k1=x)` (`**kw` entries keep their place relative to each other)."""
+    for n in ast.walk(tree):
+        if isinstance(n, ast.Call) and len(n.keywords) > 1 and all(k.arg is not None for k in n.keywords):
+            n.keywords = list(reversed(n.keywords))
+    return tree
+
+
+def return_temporaries(tree):
+    """`return <expr>` -> `_ret = <expr>; return _ret` for every non-trivial return value."""
+    class T(ast.NodeTransformer):
+        def visit_Return(self, n):
+            if n.value is None or isinstance(n.value, (ast.Name, ast.Constant)):
+                return n
+            a = ast.Assign(targets=[ast.Name(id="_ret", ctx=ast.Store())], value=n.value)
+            r = ast.Return(value=ast.Name(id="_ret", ctx=ast.Load()))
+            return [ast.copy_location(a, n), ast.copy_location(r, n)]
+
+        def visit_Lambda(self, n):
+            return n
+    tree = T().visit(tree)
+    return tree
+
+
+TREE_TRANSFORMS = {"flip_compares": flip_compares, "swap_if_arms": swap_if_arms, "swap_ifexp": swap_ifexp,
+                   "commute_mult": commute_mult, "reverse_keywords": reverse_keywords, "return_temporaries": return_temporaries}
 
 
 def rename_locals(tree, suffix):
